@@ -10,6 +10,9 @@ impl Sysline {
     pub fn dt(&self) -> (r: &DateTimeL) ensures *r == self.dt_spec() { unimplemented!() }
     #[verifier::external_body]
     pub fn count_lines(&self) -> (r: u64) ensures r == self.count_lines_spec() { unimplemented!() }
+    pub uninterp spec fn ends_with_newline_spec(&self) -> bool;
+    #[verifier::external_body]
+    pub fn ends_with_newline(&self) -> (r: bool) ensures r == self.ends_with_newline_spec() { unimplemented!() }
 }
 #[verifier::external_body]
 pub struct FixedStruct { _p: u8 }
